@@ -81,10 +81,10 @@ def _run_op(op, execs, outdir):
     return res["outcome"]
 
 
-PROBES = ["pt_same", "pt_new", "enum_same", "blocks_same", "cms_new", "truth_same", "truth_new"]
+PROBES = ["pt_same", "pt_new", "enum_same", "blocks_same", "cms_new", "truth_same", "truth_new", "again_same"]
 
 
-def _run_probe(probe, execs, outdir):
+def _run_probe(probe, execs, outdir, fresh=False):
     import func_adl_xAOD.common.cpp_types as ctyp
     if probe == "pt_same":
         exe, backend, src = execs["same"], "atlas", _query("atlas", [])
@@ -101,13 +101,18 @@ def _run_probe(probe, execs, outdir):
         exe, backend = (execs["same"] if probe == "truth_same" else None), "atlas"
         src = ('Select(EventDataset("vp"), lambda e: (e.TruthParticles("bk1").Select(lambda j: j.pt()), '
                'e.TruthParticles("bk1").Select(lambda j: j.parent().pt())))')
+    elif probe == "again_same":
+        # a query that carries its own declaration, as ONE object translated a second time: the history of
+        # this probe always contains "this very object was translated before"; the reference (empty
+        # history) is its first translation
+        exe, backend, src = execs["same"], "atlas", _query("atlas", _MD["decl"] + _MD["block"])
     elif probe == "cms_new":
         exe, backend, src = None, "cms_aod", _query("cms_aod", [])
     else:
         raise common.MachineryError("unknown probe " + probe)
     if exe is None:
         exe = translate.executor_for(backend)
-    res = translate.translate_source(src, backend, outdir, exe=exe)
+    res = translate.translate_source(src, backend, outdir, exe=exe, twice=(probe == "again_same" and not fresh))
     text = []
     if res["outcome"] == "ok":
         for f in sorted(os.listdir(outdir)):
@@ -145,7 +150,7 @@ def _one_history(args):
         if pid == 0:
             code = 0
             try:
-                r = _run_probe(probe, execs, os.path.join(d, "p_" + probe))
+                r = _run_probe(probe, execs, os.path.join(d, "p_" + probe), fresh=not hist)
                 json.dump(r, open(out, "w"))
             except BaseException as e:  # noqa
                 json.dump({"digest": "machinery:" + repr(e)[:200], "outcome": "machinery", "exc": type(e).__name__, "blob": ""}, open(out, "w"))
